@@ -403,6 +403,7 @@ func GenSeed(t *rapid.T, idx int, site Site, st Settings) (SeedPlan, map[string]
 // GenSettings draws the per-lifecycle knobs.
 func GenSettings(t *rapid.T) Settings {
 	s := genSettingsBase(t)
+	s.SlowSource = rapid.IntRange(0, 3).Draw(t, "slowsource") == 0
 	if rapid.IntRange(0, 3).Draw(t, "domainscrawl") == 0 {
 		// --domains-crawl takes naive domains, full URLs (exact match, or host and sub-domains when there is nothing after
 		// the host) and regular expressions (matched against the whole link): the last two can tell apart two links of
